@@ -564,7 +564,7 @@ func infosStr(infos []peer.AddrInfo) string {
 }
 
 func TestPeerstoreRoundTrip(t *testing.T) {
-	leg := ev.L("peerstore-roundtrip", "1-6 peers with 1-3 addresses each (ip4, ip6, dns4) and generated priorities in a host's peerstore; SavePeerstore(PeerInfos) then LoadPeerstore/ImportPeers on a fresh host: the loaded addresses are the saved ones in order and PeerInfos gives the same peers in the same priority order with the same addresses; non-trivial = at least 2 peers, one of them with several addresses; distinct by rendering")
+	leg := ev.L("peerstore-roundtrip", "1-6 peers with 1-3 addresses each (ip4, ip6, dns4) and generated priorities in a host's peerstore; SavePeerstore(PeerInfos), in half of the cases over a file that holds an earlier longer save, then LoadPeerstore/ImportPeers on a fresh host: the loaded addresses are the saved ones in order and PeerInfos gives the same peers in the same priority order with the same addresses; non-trivial = at least 2 peers, one of them with several addresses; distinct by rendering")
 	h1 := fakes.NewHost(gen.PeerKeys[8], false)
 	h2 := fakes.NewHost(gen.PeerKeys[9], false)
 	rapid.Check(t, func(t *rapid.T) {
@@ -591,6 +591,23 @@ func TestPeerstoreRoundTrip(t *testing.T) {
 			}
 			pm1.SetPriority(p, rapid.IntRange(0, 4).Draw(t, "prio"))
 			used = append(used, p)
+		}
+		// in half of the cases the file already holds an earlier, longer save
+		// (two more peers, since removed): saving replaces the contents
+		resave := rapid.Bool().Draw(t, "resave")
+		if resave {
+			extra := peers[6:8]
+			for _, p := range extra {
+				for j := 0; j < 3; j++ {
+					h1.Peerstore().AddAddr(p, addrFor(t, p), peerstore.PermanentAddrTTL)
+				}
+			}
+			if err := pm1.SavePeerstore(pm1.PeerInfos(append(append([]peer.ID{}, used...), extra...))); err != nil {
+				t.Fatalf("SavePeerstore: %v", err)
+			}
+			for _, p := range extra {
+				h1.Peerstore().ClearAddrs(p)
+			}
 		}
 		saved := pm1.PeerInfos(used)
 		if err := pm1.SavePeerstore(saved); err != nil {
@@ -622,7 +639,11 @@ func TestPeerstoreRoundTrip(t *testing.T) {
 		if w, g := infosStr(saved), infosStr(back); w != g {
 			t.Fatalf("peers / priority order after reload differ:\nsaved  %s\nreload %s", w, g)
 		}
-		leg.Case(infosStr(saved), n >= 2 && multi)
+		cls := []string{}
+		if resave {
+			cls = append(cls, "resave-shorter")
+		}
+		leg.Case(infosStr(saved)+fmt.Sprintf(" resave=%v", resave), n >= 2 && multi, cls...)
 	})
 }
 
